@@ -18,6 +18,9 @@ type client struct {
 	state          map[string]int
 	stateMutex     sync.Mutex
 	capability     CapabilityMap
+	// subscribeMutex serializes the remote registration and
+	// unregistration to signals of the proxies sharing the client.
+	subscribeMutex sync.Mutex
 }
 
 func (c *client) nextMessageID() uint32 {
